@@ -32,6 +32,9 @@ def fide(spec, r, knobs):
                 items.append(("mandatory", "true"))
             elif "mandatory-false" in knobs and r.random() < 0.7:
                 items.append(("mandatory", "false"))
+        elif in_and is False and "mandatory-in-group" in knobs and r.random() < 0.6 and f is not spec["root"]:
+            # FeatureIDE leaves the attribute on members of <or>/<alt> groups, where it has no meaning
+            items.append(("mandatory", r.choice(["true", "false"])))
         if "hidden-attr" in knobs and r.random() < 0.3:
             items.append(("hidden", "false"))
         if "attr-order" in knobs:
@@ -150,7 +153,13 @@ def fama(spec, r, knobs):
         out.append(f"</{t}>" + nl)
 
     feat(spec["root"], "feature")
-    for i, c in enumerate(spec.get("ctcs", [])):
+    ctcs = list(spec.get("ctcs", []))
+    if "repeat-ctc" in knobs and ctcs:
+        # the same dependency stated twice under two names is two constraints of the document
+        c0 = r.choice(ctcs)
+        ctcs.append({"name": c0["name"] + "-again", "ast": list(c0["ast"])})
+        spec = dict(spec, ctcs=ctcs)
+    for i, c in enumerate(ctcs):
         op, a, b = c["ast"]
         tag = tg("requires" if op == "REQUIRES" else "excludes")
         items = [("name", c["name"]), ("feature", a), ("requires" if op == "REQUIRES" else "excludes", b)]
